@@ -1,6 +1,6 @@
 """Rules on the hand-written in-memory file handles and on what the backends hand out
 (C04 R04.1–R04.3, C14 R14.1–R14.6, C19 R19.1–R19.2)."""
-from .terms import get_tracer, short, strip, fmt, walk, call_of
+from .terms import get_tracer, short, strip, fmt, walk, call_of, passthrough_of
 from .inter import Inter
 from .panics import Discharger, norm, unchecked_arith
 from .pathrules import sname, peel
@@ -339,9 +339,10 @@ class Handles:
                     rep.fail(rule_del, self.writer, "%s implemented" % meth, "missing")
                     continue
                 cases = self.inter.ret_cases(b)
-                ok = len(cases) == 1
-                for ct, _, _ in cases:
-                    c = norm(ct)
+                # `self.content.write(buf)` or its `?`-and-rewrap spelling (`let n = ..?; Ok(n)`): one call, handed on
+                shapes = {passthrough_of(norm(ct)) for ct, _, _ in cases}
+                ok = len(shapes) == 1 and len(cases) <= 2
+                for c in shapes:
                     ok = ok and c[0] == "call" and sname(c[1]) == meth and c[2] and c[2][0][0] == "field" and c[2][0][2] == cur_field and \
                         len(c[2]) == 2 and c[2][1][0] == "arg" and c[2][1][1] == 1
                 n += 1
